@@ -39,7 +39,8 @@ VMODULE = 'acme.vis_v1'
 PER_API = 30
 SEPCHARS = '/-_~.'
 # concrete characters the abstract letters a / b may stand for (never a delimiter; no line break: see assumptions)
-POOL = list('abxyzAQ07 %:@+=!$^()[]{}|\\?*#&\',;<>"') + ['é', '日']
+POOL = list('abxyzAQ %:@+=!$^()[]{}|\\?*#&\',;<>"') + ['é', '日']
+assert not set(POOL) & set('cs0123456789' + SEPCHARS)      # never a character of a literal of a generated pattern
 COMMON = ['billing_account', 'folder', 'organization', 'project', 'location']
 _ARG = re.compile(r'\{([^{}=]+)(=\*\*)?\}')
 
@@ -187,7 +188,7 @@ def _sim(argsd):
 def submit_emission(ex, exsim, seed, quick):
     """start every case-emission run; returns handles for collect_emission."""
     names = ['small'] + ([] if quick else ['mid', 'wide'])
-    nsim = 60 if quick else 1500
+    nsim = 60 if quick else 800
     sims = []
     for m in range(1, 7):
         for pi, per in enumerate(['{"del", "app", "pre", "sub", "ins"}', '{}']):
@@ -341,7 +342,7 @@ def replay(chk, path):
 
 
 def size_key(c):
-    return (c['nvars'], len(c['pattern']), sum(len(a) for a in c['args']), len(c['str']), c['pattern'], c['args'], c['str'])
+    return (c['nvars'], len(c['pattern']), c['kind'] != 'built', sum(len(a) for a in c['args']), len(c['str']), c['pattern'], c['args'], c['str'])
 
 
 def main(chk, args):
@@ -558,7 +559,7 @@ def main(chk, args):
     for p in patterns:
         nv[bypat[p][0]['nvars']] = nv.get(bypat[p][0]['nvars'], 0) + 1
     chk.rule = ('cases = (pattern, segment values, string handed to parse) chosen by TLC: exhaustive small scopes '
-                '(ResourcePath.emit.small/mid.cfg), every pattern of the grammar up to 6 variables with three probe '
+                '(ResourcePath.emit.small/mid.cfg), every pattern of the grammar up to 6 variables with two probe '
                 'assignments (emit.wide, thorough), seeded simulation with 1..6 variables, values <= 3 characters over '
                 '{a, b, /, -, _, ~, .} minus the delimiters of the pattern, strings perturbed by delete/append/prepend/'
                 'substitute/insert; plus VisibleResources shapes (2 resources x 13 placements). non-trivial = at least one '
